@@ -22,13 +22,17 @@
 (*   RRecv       fetch of the reference stream                                *)
 (*   RoundDone / SyncTDone / SyncR   FormulaEvaluator.apply: all fetched;     *)
 (*               first-run synchronisation; emit or drop the round            *)
-(* `fixed` = FALSE models the code as it is: `except ReceiverError[Any]`      *)
-(* raises TypeError when an exception is matched, so a raising primary stream *)
-(* kills every later round.  `fixed` = TRUE models `except ReceiverError`.    *)
+(* `fixed` = TRUE is the code as it is: `except ReceiverError as err` (since   *)
+(* the repair "fix: catch ReceiverError without subscripting it ...").        *)
+(* `fixed` = FALSE keeps the model of the repaired defect: `except            *)
+(* ReceiverError[Any]` raises TypeError when an exception is matched, so a    *)
+(* raising primary stream kills every later round (Dev_ErrorPathDead); it is  *)
+(* kept so that the defect is recognised by name should it come back.         *)
 (*                                                                            *)
 (* C19 clauses: ReturnsToPrimary, FallbackValueUsed, TimestampsAligned,       *)
 (*   EmitsEveryTimestamp, SurvivesPrimaryStreamFailure, StartupBounded        *)
-(* deviations:  Dev_ErrorPathDead, Dev_UnsyncFallbackAfterPrimaryFailure      *)
+(* deviations:  Dev_UnsyncFallbackAfterPrimaryFailure (known finding),        *)
+(*              Dev_ErrorPathDead (repaired; recognised if it returns)        *)
 EXTENDS Integers, Sequences, FiniteSets, TLC, Json, CSV, IOUtils
 
 CONSTANTS H,         \* horizon: ticks 1..H
@@ -324,11 +328,12 @@ SurvivesAt(o, fe, T) == (T >= closeAt /\ Post(T, fe)) => Has(o, T)
 StartupBoundedOf(fe) == \A i \in 1..Len(fe) : (fe[i].bad /\ Cardinality({k \in BadIdx(fe) : k < i}) >= lag) => fe[i].deliv
 
 \* named deviations (known findings)
-\* `except ReceiverError[Any]` raises TypeError while matching: every round after the primary
-\* stream starts raising is lost and the fallback is never consulted
+\* REPAIRED defect, kept as a cause predicate only (no known-findings entry): `except
+\* ReceiverError[Any]` raises TypeError while matching, every round after the primary stream
+\* starts raising is lost and the fallback is never consulted
 Dev_ErrorPathDead == ~fixed /\ deadHit
-\* with the except clauses repaired: after the primary raised, the fallback samples are taken
-\* one per round without comparing timestamps with the other terms
+\* known finding of the current code: after the primary raised, fetch_next_with_fallback takes the
+\* fallback samples one per round without comparing timestamps with the other terms
 Dev_UnsyncFallbackAfterPrimaryFailure == fixed /\ unsyncHit
 
 Terminal == installed /\ started /\ tick = H + 1 /\ ~ConsumerEnabled
